@@ -240,11 +240,14 @@ fn check(tape: &[u8], _ctx: &Ctx) -> Outcome {
             None => return o,
         };
         let av = img::comps_f64(one, ar.bytes());
+        let amax = alpha.iter().fold(0.0f64, |m, v| m.max(v.abs())).max(1e-30);
         for p in 0..dpx {
             let got = basev[p * nch + nch - 1];
             let want = av[p];
             let ok = if is_float {
-                let tol = 2f64.powi(-22) * got.abs().max(want.abs()) + 2f64.powi(-36);
+                // the two calls run different kernels (x2/x4 vs one channel): a first-pass sample on an f32 rounding
+                // boundary may round differently, one ulp at the magnitude of the alpha plane, amplified by sum|w|
+                let tol = 2f64.powi(-22) * got.abs().max(want.abs()) + 2f64.powi(-21) * amax;
                 (got - want).abs() <= tol
             } else {
                 got == want
